@@ -267,6 +267,18 @@ static void run_c03() {
             });
         }
     }
+    // every byte value written as a hex escape in every spelling of the digits (lower, upper, mixed case), alone, as both ends of a range and inside a set
+    {
+        static const char* lo = "0123456789abcdef"; static const char* up = "0123456789ABCDEF";
+        for (int b = 0; b < 256; ++b) for (int sp = 0; sp < 4; ++sp) {
+            if ((idx++ % cfg.nshards) != cfg.shard || deadline_hit) continue;
+            char h = (sp & 1) ? up[b >> 4] : lo[b >> 4], l = (sp & 2) ? up[b & 15] : lo[b & 15];
+            std::string esc = std::string("\\x") + h + l;
+            int b2 = std::min(255, b + 5); std::string esc2 = std::string("\\x") + ((sp & 2) ? up[b2 >> 4] : lo[b2 >> 4]) + ((sp & 1) ? up[b2 & 15] : lo[b2 & 15]);
+            std::vector<rx::Atom> atoms = {rx::Atom{esc, cs_of({b})}, rx::Atom{"[" + esc + "-" + esc2 + "]", cs_range(b, b2)}, rx::Atom{"[^" + esc + "z]", ~(cs_of({b}) | cs_of({'z'}))}};
+            for (int a = 0; a < 3; ++a) { rx::AstPool ap; int root = ap.leaf(a); ctr["C03.hex_spelling_patterns"]++; check_pattern(ap, atoms, root); }
+        }
+    }
     // one-dimensional sweep (not exhaustive): repetition counts of two, three and four digits, on shapes outside the known merge defect
     {
         const Pool& P = pools.back();   // atoms a, b, c
@@ -491,7 +503,8 @@ template<class P> static void run_termset(P& p, const std::vector<TermSpec>& ts,
             g_toks.clear(); g_made.clear(); g_base = in.data(); g_steps = 0;
             std::ostringstream es; bool ok = false, horizon = false; std::string thrown;
             try {
-                auto r = p.parse(parse_options{}.set_skip_whitespace(oc.ws).set_skip_newline(oc.nl), buffers::string_view_buffer(std::string_view(in)), static_cast<std::ostream&>(es));
+                parse_options po; po.set_skip_whitespace(oc.ws).set_skip_newline(oc.nl);   // a chain of setters on a named object (they return *this)
+                auto r = p.parse(po, buffers::string_view_buffer(std::string_view(in)), static_cast<std::ostream&>(es));
                 ok = r.has_value();
             } catch (const Horizon&) { horizon = true; }
             catch (const BoundsHit& h) { thrown = h.what; }
